@@ -97,6 +97,32 @@ class BadStrTag(fdl.Tag, metaclass=BadStrTagMeta):
   """tag whose str() raises"""
 
 
+class BadReprKey:
+  """Hashable dict key whose repr() raises (path elements are printed with repr(key))."""
+
+  def __repr__(self):
+    raise RuntimeError('repr of key is broken')
+
+
+class BadStrCallable:
+  """Callable instance (no __qualname__) whose str()/repr() raises while armed."""
+  armed = False
+
+  def __init__(self, i):
+    self.i = i
+
+  def __call__(self, x=None, y=None, *, z=None, t=None):
+    sigs.LOG.append((f'h{self.i}', None))
+    if FAIL['node'] == self.i:
+      raise make_exc(FAIL['exc'])
+    return sigs.Rec(f'h{self.i}', (x, y), (), (z,), {})
+
+  def __repr__(self):
+    if BadStrCallable.armed:
+      raise RuntimeError('repr of callable is broken')
+    return f'<BadStrCallable {self.i}>'
+
+
 def _mk_h(i):
   def h(x=None, y=None, *, z=None, t=None):
     sigs.LOG.append((f'h{i}', None))
@@ -153,6 +179,9 @@ def _run(w, exc, fmt, again, fail, t1x, t1y, t2x, t2y):
     # formatted: the call itself fails (TypeError) and the diagnostic's tag listing raises.
     fdl.update_callable(nodes[f], HR[f])
     fdl.add_tag(nodes[f], 'r', BadStrTag)
+  elif fmt == 4:
+    fdl.update_callable(nodes[f], BadStrCallable(f))
+  top = {BadReprKey(): root} if fmt == 3 else root     # fmt 3: the path to every node cannot be printed
   before = canon(root)
   healthy_copy = copy.deepcopy(root)
   res = dict(instance=True, startswith=True, path=True, last=True, unmodified=True, nextbuild=True, raised=True)
@@ -162,14 +191,16 @@ def _run(w, exc, fmt, again, fail, t1x, t1y, t2x, t2y):
     sigs.reset_log()
     original = make_exc(exc) if fmt != 2 else TypeError('')
     escaped = None
+    BadStrCallable.armed = True
     try:
-      fdl.build(root)
+      fdl.build(top)
     except BaseException as e:  # pylint: disable=broad-except
       if type(e).__module__.startswith('crosshair'):
         raise
       escaped = e
     finally:
       FAIL['node'] = None
+      BadStrCallable.armed = False
     if escaped is None:
       res['raised'] = False
       return res
@@ -179,7 +210,9 @@ def _run(w, exc, fmt, again, fail, t1x, t1y, t2x, t2y):
     if not text.startswith(str(original)):
       res['startswith'] = False
     m = _PATH_RE.search(text)
-    if not m:
+    if fmt == 3:
+      pass          # no string names this path (repr of a key on it raises): the clause has no subject
+    elif not m:
       res['path'] = False
     else:
       named = m.group(1)
@@ -219,7 +252,7 @@ def c05_residue(w: int, exc: int, fmt: int, again: int, fail: int, t1x: int, t1y
   Everything except the "names a path" clause: raised, instance of the original class, message starts
   with the original message, nothing invoked after the failing callable, configuration unmodified,
   next build works.
-  require: 0 <= w <= 5 and 0 <= exc <= 8 and 0 <= fmt <= 2 and 0 <= again <= 1 and 0 <= fail <= 2
+  require: 0 <= w <= 5 and 0 <= exc <= 8 and 0 <= fmt <= 4 and 0 <= again <= 1 and 0 <= fail <= 2
   require: -1 <= t1x <= 0 and -1 <= t1y <= 0 and -1 <= t2x <= 1 and -1 <= t2y <= 1
   """
   res = _run(w, exc, fmt, again, fail, t1x, t1y, t2x, t2y)
@@ -231,7 +264,7 @@ def c05_residue(w: int, exc: int, fmt: int, again: int, fail: int, t1x: int, t1y
 def c05_path(w: int, exc: int, fmt: int, again: int, fail: int, t1x: int, t1y: int, t2x: int, t2y: int) -> bool:
   """
   The escaping exception's message names a path from the root that really leads to the failing Buildable.
-  require: 0 <= w <= 5 and 0 <= exc <= 8 and 0 <= fmt <= 2 and 0 <= again <= 1 and 0 <= fail <= 2
+  require: 0 <= w <= 5 and 0 <= exc <= 8 and 0 <= fmt <= 4 and 0 <= again <= 1 and 0 <= fail <= 2
   require: -1 <= t1x <= 0 and -1 <= t1y <= 0 and -1 <= t2x <= 1 and -1 <= t2y <= 1
   """
   res = _run(w, exc, fmt, again, fail, t1x, t1y, t2x, t2y)
@@ -275,11 +308,84 @@ def c05_nested(depth: int, inner_fails: bool, v: int) -> bool:
     return True
 
 
+ATT = [0, 0, 0]
+OUTCOMES = []
+_INNER = []
+
+
+def _mk_nb(i):
+  def nb(x=None, y=None, *, z=None):
+    """Makes ATT[i] nested build attempts, swallowing each rejection, then returns normally."""
+    for k in range(ATT[i]):
+      try:
+        fdl.build(_INNER[0])
+        OUTCOMES.append((i, k, 'ACCEPTED'))
+      except ValueError as e:
+        OUTCOMES.append((i, k, 'rejected' if 'forbidden' in str(e) else 'other ValueError'))
+      except Exception as e:  # pylint: disable=broad-except
+        OUTCOMES.append((i, k, type(e).__name__))
+    return sigs.Rec(f'nb{i}', (x, y), (), (z,), {})
+  nb.__name__ = nb.__qualname__ = f'nb{i}'
+  nb.__module__ = __name__
+  return nb
+
+
+NB = [_mk_nb(i) for i in range(3)]
+nb0, nb1, nb2 = NB
+
+
+def c05_nested_seq(a0: int, a1: int, a2: int, w: int, t1x: int, t1y: int, t2x: int, t2y: int, v: int) -> bool:
+  """
+  Every callable of a 3-node DAG makes a0 / a1 / a2 nested fdl.build attempts and swallows the rejections: every
+  attempt is rejected (also after earlier rejected attempts by the same or by a sibling callable), nothing is built
+  by a nested call, the outer build completes normally, and afterwards the guard is free.
+  require: 0 <= a0 <= 2 and 0 <= a1 <= 2 and 0 <= a2 <= 2 and 0 <= w <= 5
+  require: -1 <= t1x <= 0 and -1 <= t1y <= 0 and -1 <= t2x <= 1 and -1 <= t2y <= 1
+  """
+  def conc(t, lo, hi):
+    for c in range(lo, hi):
+      if t == c:
+        return c
+    return lo
+  t1x, t1y, t2x, t2y = conc(t1x, -1, 1), conc(t1y, -1, 1), conc(t2x, -1, 2), conc(t2y, -1, 2)
+  ATT[:] = [conc(a0, 0, 3), conc(a1, 0, 3), conc(a2, 0, 3)]
+  del OUTCOMES[:]
+  _INNER[:] = [fdl.Config(fam.g5, x=v)]
+  targets = [(-1, -1), (t1x, t1y), (t2x, t2y)]
+  root, nodes = fam.make(3, targets, [(0, 0), (w, w), (w, w)], callables=NB, share=True)
+  before = canon(root)
+  sigs.reset_log()
+  try:
+    built = fdl.build(root)
+  except Exception:  # pylint: disable=broad-except
+    return False
+  names = [n for n, _ in sigs.LOG]
+  reach = fam.reachable(3, targets)
+  note('c05s', tuple(ATT), w, tuple(targets))
+  if 'g5' in names:
+    return False                       # a nested build ran a callable
+  if sorted(names) != sorted(f'nb{i}' for i in reach):
+    return False
+  if len(OUTCOMES) != sum(ATT[i] for i in reach):
+    return False
+  for _, _, what in OUTCOMES:
+    if what != 'rejected':
+      return False
+  if canon(root) != before:
+    return False
+  ATT[:] = [0, 0, 0]
+  sigs.reset_log()
+  again = fdl.build(root)
+  if canon(again) != canon(built):
+    return False
+  return fdl.build(_INNER[0]) == sigs.Rec('g5', (v, None), (), (None,), {})
+
+
 def obligations(tier, seed):
   ws = [0, 1, 3] if tier == 'quick' else [0, 1, 2, 3, 4, 5]
   cubes = []
   for exc in range(9):
-    for fmt in range(3):
+    for fmt in range(5):
       for again in range(2):
         for w in ws:
           if tier == 'quick' and (exc + fmt + again + w) % 2:
@@ -289,9 +395,13 @@ def obligations(tier, seed):
   t = 300 if tier == 'quick' else 900
   return [
       Obligation('c05_residue', c05_residue, cubes, timeout=t, path_timeout=40, smoke=smoke,
-                 extra_smokes=[dict(smoke, exc=e, fmt=e % 3, fail=e % 3) for e in range(9)]),
+                 extra_smokes=[dict(smoke, exc=e, fmt=e % 5, fail=e % 3) for e in range(9)]),
       Obligation('c05_path', c05_path, cubes, timeout=t, path_timeout=40, smoke=smoke,
                  extra_smokes=[dict(smoke, exc=e, fail=1) for e in (1, 2, 3, 4, 7, 8)]),
+      Obligation('c05_nested_seq', c05_nested_seq,
+                 [Cube(f'a{a0}{a2}_w{w}', [], dict(a0=a0, a2=a2, w=w), est=108) for a0 in range(3) for a2 in range(3)
+                  for w in ((1,) if tier == 'quick' else (0, 1, 3, 5))], timeout=t, path_timeout=40,
+                 smoke=dict(a0=2, a1=1, a2=2, w=1, t1x=0, t1y=-1, t2x=1, t2y=0, v=3)),
       Obligation('c05_nested', c05_nested, [Cube(f'd{d}', [], dict(depth=d)) for d in range(3)], timeout=120,
                  smoke=dict(depth=1, inner_fails=False, v=3)),
   ]
